@@ -45,6 +45,9 @@ def mesh_configs(quick):
         dict(kind="bar", mel=1.0, smooth=0), dict(kind="bar_hole", mel=0.8, smooth=3), dict(kind="ring", mel=1.0, smooth=0),
         dict(kind="union", mel=1.0, smooth=0), dict(kind="cross4", mel=1.2, smooth=10),
     ]
+    # geometry away from the origin; meshes made without refinement (outline point density only), with min_points only
+    c += [dict(kind="bar_hole", mel=0.0, smooth=0, offset=(20.0, 12.0)), dict(kind="ring", mel=1.0, smooth=2, offset=(0.4, -0.3)),
+          dict(kind="bar", mel=None, smooth=0, min_points=150, offset=(-7.0, 3.0))]
     if not quick:
         c += [dict(kind="ellipse", mel=0.7, smooth=0), dict(kind="bar3", mel=0.6, smooth=3, xi=0.3), dict(kind="ring", mel=0.5, smooth=10, min_points=400),
               dict(kind="union", mel=0.7, smooth=3, xi=0.8), dict(kind="bar_hole", mel=1.4, smooth=0, xi=1.0)]
@@ -105,7 +108,14 @@ def voronoi_cells(mesh, domain, radius):
 
 
 def check_mesh(ctx, cfg, with_model=True):
-    dev = zoo.make_device(cfg["kind"], ctx.rng, max_edge_length=cfg["mel"], smooth=cfg["smooth"], xi=cfg.get("xi", 0.5), min_points=cfg.get("min_points"))
+    if cfg.get("offset") is not None:
+        dev = zoo.make_device(cfg["kind"], ctx.rng, xi=cfg.get("xi", 0.5), mesh=False).translate(dx=cfg["offset"][0], dy=cfg["offset"][1])
+        dev.make_mesh(max_edge_length=cfg["mel"], min_points=cfg.get("min_points"), smooth=cfg["smooth"])
+        ctx.count("meshes_of_off_centre_geometry")
+        if not cfg["mel"]:
+            ctx.count("meshes_without_refinement")
+    else:
+        dev = zoo.make_device(cfg["kind"], ctx.rng, max_edge_length=cfg["mel"], smooth=cfg["smooth"], xi=cfg.get("xi", 0.5), min_points=cfg.get("min_points"))
     first = check_device_mesh(ctx, cfg, dev, with_model=with_model)
     # the same relations hold for the mesh a device carries after it has been moved: in place, and inside the
     # `translation` context manager (and again after leaving it)
@@ -134,7 +144,7 @@ def check_device_mesh(ctx, cfg, dev, with_model=True):
         if first is None:
             first = dict(key=key, what=what, **rp)
 
-    ctx.case((cfg["kind"], cfg["mel"], cfg["smooth"], cfg.get("moved", ""), n), nontrivial=n >= 50)
+    ctx.case((cfg["kind"], cfg["mel"], cfg["smooth"], cfg.get("moved", ""), str(cfg.get("offset")), n), nontrivial=n >= 50)
     ctx.count("meshes")
     ctx.count("sites", n)
     ctx.count("edges", E)
